@@ -796,22 +796,42 @@ func terminalRule(c *core.Ctx, s *c20side, m *types.Func, fn *ssa.Function, ps [
 			}
 			continue
 		}
-		// success: fresh allocation + copy from the buffer
-		ms, ok := p.Results[0].(*ssa.MakeSlice)
-		if !ok {
+		// success: the result is rooted at a fresh allocation (make, or append onto make/nil) and filled from the buffer
+		var roots []ssa.Value
+		rootsOf(p.Results[0], map[ssa.Value]bool{}, &roots)
+		fresh := len(roots) > 0
+		var ms ssa.Value
+		for _, r := range roots {
+			switch x := r.(type) {
+			case *ssa.MakeSlice:
+				ms = x
+			case *ssa.Const:
+				if !x.IsNil() {
+					fresh = false
+				}
+			default:
+				fresh = false
+			}
+		}
+		if !fresh {
 			probs = append(probs, "the data result is not a freshly allocated slice ("+describeValue(p.Results[0])+"): the caller would share memory with the pooled buffer")
 			continue
 		}
 		copied := false
+		if call, ok := p.Results[0].(*ssa.Call); ok {
+			if b, ok := call.Call.Value.(*ssa.Builtin); ok && b.Name() == "append" {
+				copied = true // append(fresh, src...) copies src
+			}
+		}
 		for _, e := range p.Events {
 			if call, ok := e.Instr.(*ssa.Call); ok && e.Kind == paths.EvInstr {
 				if b, ok := call.Call.Value.(*ssa.Builtin); ok && b.Name() == "copy" && len(call.Call.Args) == 2 {
-					dst := call.Call.Args[0]
-					if sl, ok := dst.(*ssa.Slice); ok {
-						dst = sl.X
-					}
-					if dst == ssa.Value(ms) {
-						copied = true
+					var droots []ssa.Value
+					rootsOf(call.Call.Args[0], map[ssa.Value]bool{}, &droots)
+					for _, d := range droots {
+						if ms != nil && d == ms {
+							copied = true
+						}
 					}
 				}
 			}
